@@ -38,8 +38,8 @@ func (u *vpC21UDP) RelayUDPDatagram(streamID uint64, destAddr net.Addr, destPort
 	return nil
 }
 func (u *vpC21UDP) CloseUDPAssociation(streamID uint64) {}
-func (u *vpC21UDP) IsUDPEnabled() bool                   { return true }
-func (u *vpC21UDP) n() int                               { u.mu.Lock(); defer u.mu.Unlock(); return u.count }
+func (u *vpC21UDP) IsUDPEnabled() bool                  { return true }
+func (u *vpC21UDP) n() int                              { u.mu.Lock(); defer u.mu.Unlock(); return u.count }
 
 type vpC21ICMP struct {
 	mu    sync.Mutex
@@ -57,8 +57,8 @@ func (u *vpC21ICMP) RelayICMPEcho(streamID uint64, identifier, sequence uint16, 
 	return nil
 }
 func (u *vpC21ICMP) CloseICMPSession(streamID uint64) {}
-func (u *vpC21ICMP) IsICMPEnabled() bool               { return true }
-func (u *vpC21ICMP) n() int                            { u.mu.Lock(); defer u.mu.Unlock(); return u.count }
+func (u *vpC21ICMP) IsICMPEnabled() bool              { return true }
+func (u *vpC21ICMP) n() int                           { u.mu.Lock(); defer u.mu.Unlock(); return u.count }
 
 var vpC21Hashes = map[string]string{}
 
